@@ -754,6 +754,21 @@ def _fusion(prog: Program, col: Collector, refs: Refs, cat: Catalogue):
         # every inner value is wrapped with the WHOLE outer substitution
         wraps = [c for c in ast.walk(f.node) if isinstance(c, ast.Call) and refs.resolve(c.func) == "funsor.terms.Subs" and len(c.args) == 2
                  and isinstance(f.module.parent.get(c), ast.Tuple)]
+        # ... or conditionally: `Subs(v, outer) if <test> else v` is only the same thing when the test says "no key is an input of v"
+        for ie in [x for x in ast.walk(f.node) if isinstance(x, ast.IfExp) and isinstance(f.module.parent.get(x), ast.Tuple)]:
+            for wrapped, bare, when_true in ((ie.body, ie.orelse, True), (ie.orelse, ie.body, False)):
+                if isinstance(wrapped, ast.Call) and refs.resolve(wrapped.func) == "funsor.terms.Subs" and len(wrapped.args) == 2 and isinstance(bare, ast.Name) \
+                        and norm(wrapped.args[0]) == bare.id:
+                    wraps.append(wrapped)
+                    qi = _quantifier(ie.test, whole)
+                    ok_cond = False
+                    if qi is not None:
+                        q, pos, _S, E = qi
+                        # condition under which the value passes through UNWRAPPED
+                        cq, cpos = _dual(q, pos) if when_true else (q, pos)
+                        ok_cond = isinstance(E, ast.Attribute) and E.attr in ("inputs", "input_vars") and norm(E.value) == bare.id and (cq, cpos) == ("all", False)
+                    if not ok_cond:
+                        bad.append((ie, ie.test))
         bad_wrap = [c for c in wraps if not (isinstance(c.args[1], ast.Name) and c.args[1].id in whole)]
         construct = f"{f.fq}::fusion"
         if bad:
